@@ -163,6 +163,14 @@ func enumCases() []enumCase {
 		{Name: "fail_alias_two_actions", Src: enumDef{"int", []enumMember{{"Red", "0"}, {"Green", "1"}, {"Blue", "2"}, {"Azure", "2"}}}, Tgt: rgb("int", "7", "8", "9"),
 			Lines: []string{"enum:map Blue @error", "enum:map Azure @ignore"}, Mapping: same, Fail: "members with equal values map to different actions"},
 		{Name: "fail_no_unknown", Src: rgb("int", "0", "1", "2"), Tgt: rgb("int", "7", "8", "9"), Mapping: same, Unknown: "none", Fail: "enum:unknown missing"},
+		// a member without a target of its name is an error also when another member of the same value has one
+		{Name: "fail_alias_member_without_target", Src: enumDef{"int", []enumMember{{"Red", "0"}, {"Green", "1"}, {"Blue", "2"}, {"Teal", "2"}}}, Tgt: rgb("int", "7", "8", "9"),
+			Mapping: same, Fail: "source member Teal has no target (Blue, a member of equal value, has one)"},
+		{Name: "fail_alias_member_without_target_first", Src: enumDef{"int", []enumMember{{"Azure", "2"}, {"Red", "0"}, {"Green", "1"}, {"Blue", "2"}}}, Tgt: rgb("int", "7", "8", "9"),
+			Mapping: same, Fail: "source member Azure has no target (Blue, a member of equal value, has one)"},
+		// member names are matched exactly: matchIgnoreCase is about struct fields
+		{Name: "fail_member_in_other_case_matchignorecase", Src: enumDef{"int", []enumMember{{"Red", "0"}, {"Green", "1"}, {"BLUE", "2"}}}, Tgt: rgb("int", "7", "8", "9"),
+			Mapping: same, ExtraConv: []string{"matchIgnoreCase"}, Fail: "source member BLUE exists in the target only in another case (matchIgnoreCase in effect)"},
 		// exclude lines are matched one by one: a line for another type of the package and a line for the same type
 		// name in another package do not exclude this enum
 		{Name: "exclude_lines_not_combined", Src: rgb("int", "0", "1", "2"), Tgt: rgb("int", "7", "8", "9"), Mapping: same,
